@@ -545,3 +545,374 @@ theorem SInv.reach {s t : St} (i : SInv s) (h : Reach s t) : SInv t := by
   | tail _ st ih => exact ih.step st
 
 end UvModel.IoWatch
+
+namespace UvModel.IoWatch
+
+/-- the four registry fields are untouched -/
+def Same4 (s t : St) : Prop := t.ws = s.ws ∧ t.watchers = s.watchers ∧ t.nfds = s.nfds ∧ t.wq = s.wq
+
+theorem Same4.refl (s : St) : Same4 s s := ⟨rfl, rfl, rfl, rfl⟩
+theorem Same4.trans {a b c : St} (h1 : Same4 a b) (h2 : Same4 b c) : Same4 a c :=
+  ⟨h2.1.trans h1.1, h2.2.1.trans h1.2.1, h2.2.2.1.trans h1.2.2.1, h2.2.2.2.trans h1.2.2.2⟩
+theorem Same4.kept {s t : St} (h : Same4 s t) : Kept s t := Kept.of_eq h.1 h.2.1 h.2.2.1 h.2.2.2
+theorem Same4.reach {s t : St} (h : Same4 s t) : Reach s t := .kept h.kept
+
+theorem same_emit (s : St) (e : Ev) : Same4 s (emit s e) := ⟨rfl, rfl, rfl, rfl⟩
+theorem same_abort (s : St) : Same4 s (abort s) := ⟨rfl, rfl, rfl, rfl⟩
+theorem same_ctl (s : St) (op : CtlOp) (fd : Nat) (m : Mask) (o : Option Nat) : Same4 s (ctl s op fd m o).1 :=
+  ⟨rfl, rfl, rfl, rfl⟩
+theorem same_invalidate (s : St) (fd : Nat) : Same4 s (invalidate s fd) := by
+  unfold invalidate; split <;> exact ⟨rfl, rfl, rfl, rfl⟩
+theorem same_flushOnce (s : St) : Same4 s (flushOnce s) := by
+  unfold flushOnce; simp only []; split <;> exact ⟨rfl, rfl, rfl, rfl⟩
+theorem same_flushAll (s : St) : Same4 s (flushAll s) := (same_flushOnce s).trans (same_flushOnce _)
+theorem same_prep (s : St) (c : CtlOp × Nat × Mask × Nat) : Same4 s (prep s c) := by
+  have a : Same4 s { s with sq := s.sq ++ [c] } := ⟨rfl, rfl, rfl, rfl⟩
+  unfold prep; simp only []
+  split
+  · split
+    · exact (a.trans (same_flushOnce _)).trans (same_flushOnce _)
+    · exact a.trans (same_flushOnce _)
+  · exact a
+
+theorem Reach.len {s t : St} (h : Reach s t) : s.ws.length ≤ t.ws.length := by
+  induction h with
+  | refl => exact Nat.le_refl _
+  | tail _ st ih =>
+    cases st with
+    | kept k => exact Nat.le_trans ih k.len
+    | start id m hid => rw [(ioStart_spec _ id m hid).2.1]; exact ih
+    | stop id m => rw [(ioStop_spec _ id m).2.1]; exact ih
+    | applied a => rw [a.len]; exact ih
+
+theorem reach_setFlags (s : St) (id : Nat) (w : W) (hf : w.fd = (getW s id).fd)
+    (hp : w.pevents = (getW s id).pevents) (he : w.events = (getW s id).events) : Reach s (setW s id w) :=
+  .kept (Kept.setW s id w hf hp he)
+
+theorem reach_pollStop (s : St) (id : Nat) : Reach s (pollStop s id) := by
+  unfold pollStop
+  refine Reach.trans ?_ (reach_setFlags _ _ _ rfl rfl rfl)
+  refine Reach.trans ?_ (same_invalidate _ _).reach
+  refine Reach.trans ?_ (reach_setFlags _ _ _ rfl rfl rfl)
+  exact Reach.step (.stop id Mask.all4)
+
+theorem reach_ioClose (s : St) (id : Nat) : Reach s (ioClose s id) := by
+  unfold ioClose
+  refine Reach.trans ?_ (reach_setFlags _ _ _ rfl rfl rfl)
+  refine Reach.trans ?_ (same_invalidate _ _).reach
+  refine Reach.trans (Reach.step (.stop id Mask.all4)) ?_
+  exact Same4.reach ⟨rfl, rfl, rfl, rfl⟩
+
+theorem reach_push (s : St) (w : W) (hp : w.pevents = Mask.none) (he : w.events = Mask.none) :
+    Reach s { s with ws := s.ws ++ [w] } := .kept (Kept.push s w hp he)
+
+theorem reach_pollInit (s : St) (fd : Nat) : Reach s (pollInit s fd).1 := by
+  unfold pollInit
+  split
+  · exact .refl _
+  · simp only []
+    split
+    · exact (same_ctl _ _ _ _ _).reach
+    · split
+      · exact ((same_ctl _ _ _ _ _).trans ((same_ctl _ _ _ _ _).trans (same_abort _))).reach
+      · exact Reach.trans ((same_ctl _ _ _ _ _).trans (same_ctl _ _ _ _ _)).reach (reach_push _ _ rfl rfl)
+
+theorem uvToPoll_ne (u : UvEv) (h : u ≠ UvEv.none) : uvToPoll u ≠ Mask.none := by
+  intro h'; apply h; cases u; simp [uvToPoll, Mask.none, UvEv.none] at h' ⊢; simp_all
+
+theorem reach_pollStart (s : St) (id : Nat) (u : UvEv) (hid : id < s.ws.length) : Reach s (pollStart s id u).1 := by
+  unfold pollStart; simp only []
+  split
+  · exact .refl _
+  · split
+    · exact reach_pollStop s id
+    · rename_i hu
+      have h1 := reach_pollStop s id
+      refine Reach.trans ?_ (reach_setFlags _ _ _ rfl rfl rfl)
+      exact Reach.trans h1 (Reach.step (.start id (uvToPoll u) (Nat.lt_of_lt_of_le hid h1.len) rfl rfl (uvToPoll_ne u hu)))
+
+theorem reach_pollClose (s : St) (id : Nat) : Reach s (pollClose s id) := by
+  unfold pollClose
+  have h1 := reach_pollStop s id
+  have h2 : Reach (pollStop s id) (setW (pollStop s id) id { getW (pollStop s id) id with closing := true }) :=
+    reach_setFlags _ _ _ rfl rfl rfl
+  exact Reach.trans (Reach.trans h1 h2) (Same4.reach ⟨rfl, rfl, rfl, rfl⟩)
+
+theorem valid4_spec (m : Mask) (h : valid4 m = true) : m.e = false ∧ m.h = false ∧ m ≠ Mask.none := by
+  simp [valid4] at h; exact ⟨h.1.2, h.2, h.1.1⟩
+
+theorem liveId_lt (s : St) (id : Nat) (p : Bool) (h : liveId s id p = true) : id < s.ws.length := by
+  simp [liveId] at h; exact h.1.1
+
+theorem reach_doOp (s : St) (o : Op) : Reach s (doOp s o) := by
+  cases o <;> simp only [doOp]
+  case openfd fd k => split <;> exact Same4.reach ⟨rfl, rfl, rfl, rfl⟩
+  case closefd fd => split <;> exact Same4.reach ⟨rfl, rfl, rfl, rfl⟩
+  case dupfd fd => split <;> exact Same4.reach ⟨rfl, rfl, rfl, rfl⟩
+  case closedup d => split <;> exact Same4.reach ⟨rfl, rfl, rfl, rfl⟩
+  case peer a b => exact .refl _
+  case pinit fd =>
+    split
+    · exact (same_emit _ _).reach
+    · have := reach_pollInit s fd
+      split
+      · rename_i h; rw [h] at this; exact Reach.trans this (same_emit _ _).reach
+      · rename_i h; rw [h] at this; split
+        · exact this
+        · exact Reach.trans this (same_emit _ _).reach
+  case pstart id u =>
+    split
+    · rename_i h; simp at h
+      exact Reach.trans (reach_pollStart s id u (liveId_lt _ _ _ h.1)) (same_emit _ _).reach
+    · exact (same_emit _ _).reach
+  case pstop id => split; exact Reach.trans (reach_pollStop s id) (same_emit _ _).reach; exact (same_emit _ _).reach
+  case pclose id => split; exact Reach.trans (reach_pollClose s id) (same_emit _ _).reach; exact (same_emit _ _).reach
+  case ioinit fd =>
+    split
+    · exact (same_emit _ _).reach
+    · exact Reach.trans (reach_push s _ rfl rfl) (same_emit _ _).reach
+  case iostart id m =>
+    split
+    · rename_i h; simp at h
+      have hv := valid4_spec m h.1.1.2
+      exact Reach.trans (Reach.step (.start id m (liveId_lt _ _ _ h.1.1.1) hv.1 hv.2.1 hv.2.2)) (same_emit _ _).reach
+    · exact (same_emit _ _).reach
+  case iostop id m => split; exact Reach.trans (Reach.step (.stop id m)) (same_emit _ _).reach; exact (same_emit _ _).reach
+  case ioclose id => split; exact Reach.trans (reach_ioClose s id) (same_emit _ _).reach; exact (same_emit _ _).reach
+  case iofeed id =>
+    split
+    · refine Reach.trans ?_ (same_emit _ _).reach
+      unfold ioFeed; split <;> exact Same4.reach ⟨rfl, rfl, rfl, rfl⟩
+    · exact (same_emit _ _).reach
+
+theorem reach_execOp (s : St) (o : Op) : Reach s (execOp s o) := by
+  unfold execOp; split
+  · exact .refl _
+  · exact Reach.trans (Reach.trans (same_emit _ _).reach (reach_doOp _ o)) (same_emit _ _).reach
+
+theorem reach_execOps (s : St) (ops : List Op) : Reach s (execOps s ops) := by
+  unfold execOps
+  induction ops generalizing s with
+  | nil => exact .refl _
+  | cons o r ih => exact Reach.trans (reach_execOp s o) (ih _)
+
+theorem reach_deliver (sc : Script) (s : St) (id : Nat) (ev : Mask) : Reach s (deliver sc s id ev) := by
+  unfold deliver; simp only []
+  have h0 := reach_setFlags s id { getW s id with cbs := (getW s id).cbs + 1 } rfl rfl rfl
+  split
+  · split
+    · refine Reach.trans ?_ (reach_execOps _ _)
+      refine Reach.trans ?_ (same_emit _ _).reach
+      refine Reach.trans ?_ (reach_setFlags _ _ _ rfl rfl rfl)
+      exact Reach.trans h0 (Reach.step (.stop id Mask.all4))
+    · exact Reach.trans (Reach.trans h0 (same_emit _ _).reach) (reach_execOps _ _)
+  · exact Reach.trans (Reach.trans h0 (same_emit _ _).reach) (reach_execOps _ _)
+
+theorem reach_dispatchOne (sc : Script) (s : St) (i : Nat) : Reach s (dispatchOne sc s i).1 := by
+  unfold dispatchOne
+  split
+  · exact .refl _
+  · split
+    · exact (same_abort _).reach
+    · split
+      · exact (same_ctl _ _ _ _ _).reach
+      · simp only []; split
+        · exact reach_deliver _ _ _ _
+        · exact .refl _
+
+theorem reach_dispatchFrom (sc : Script) (s : St) (i n : Nat) : Reach s (dispatchFrom sc s i n).1 := by
+  induction n generalizing s i with
+  | zero => exact .refl _
+  | succ n ih =>
+    unfold dispatchFrom; split
+    · exact .refl _
+    · exact Reach.trans (reach_dispatchOne sc s i) (ih _ _)
+
+end UvModel.IoWatch
+namespace UvModel.IoWatch
+
+theorem applyOne_same (s : St) (id : Nat) :
+    Same4 (setW s id { getW s id with events := (getW s id).pevents }) (applyOne s id) := by
+  unfold applyOne; simp only []
+  split
+  · exact same_prep _ _
+  · repeat' split
+    all_goals first
+      | exact same_ctl _ _ _ _ _
+      | exact (same_ctl _ _ _ _ _).trans (same_abort _)
+      | exact (same_ctl _ _ _ _ _).trans (same_ctl _ _ _ _ _)
+      | exact ((same_ctl _ _ _ _ _).trans (same_ctl _ _ _ _ _)).trans (same_abort _)
+
+theorem foldl_applyOne (l : List Nat) (t : St) :
+    (l.foldl applyOne t).watchers = t.watchers ∧ (l.foldl applyOne t).nfds = t.nfds ∧
+    (l.foldl applyOne t).wq = t.wq ∧ (l.foldl applyOne t).ws.length = t.ws.length ∧
+    ∀ id, (getW (l.foldl applyOne t) id).fd = (getW t id).fd ∧
+      (getW (l.foldl applyOne t) id).pevents = (getW t id).pevents ∧
+      (getW (l.foldl applyOne t) id).events =
+        if id ∈ l ∧ id < t.ws.length then (getW t id).pevents else (getW t id).events := by
+  induction l generalizing t with
+  | nil => simp
+  | cons a r ih =>
+    simp only [List.foldl_cons]
+    have hs := applyOne_same t a
+    have hg : ∀ j, getW (applyOne t a) j =
+        if j = a ∧ a < t.ws.length then { getW t a with events := (getW t a).pevents } else getW t j := by
+      intro j
+      have : getW (applyOne t a) j = getW (setW t a { getW t a with events := (getW t a).pevents }) j := by
+        simp [getW, hs.1]
+      rw [this, getW_setW]
+    have hl : (applyOne t a).ws.length = t.ws.length := by rw [hs.1]; simp
+    obtain ⟨h1, h2, h3, h4, h5⟩ := ih (applyOne t a)
+    refine ⟨by rw [h1, hs.2.1]; rfl, by rw [h2, hs.2.2.1]; rfl, by rw [h3, hs.2.2.2]; rfl, by rw [h4, hl], fun id => ?_⟩
+    obtain ⟨f1, f2, f3⟩ := h5 id
+    rw [f1, f2, f3, hg id, hl]
+    by_cases hc : id = a ∧ a < t.ws.length
+    · rw [if_pos hc]; obtain ⟨rfl, hlt⟩ := hc
+      simp [hlt]
+    · rw [if_neg hc]
+      refine ⟨rfl, rfl, ?_⟩
+      by_cases hr : id ∈ r ∧ id < t.ws.length
+      · rw [if_pos hr, if_pos ⟨List.mem_cons_of_mem _ hr.1, hr.2⟩]
+      · rw [if_neg hr]; symm; apply if_neg; intro h
+        rcases List.mem_cons.mp h.1 with e | e
+        · exact hc ⟨e, e ▸ h.2⟩
+        · exact hr ⟨e, h.2⟩
+
+theorem applied_applyQueue (s : St) : Applied s (applyQueue s) := by
+  unfold applyQueue
+  obtain ⟨h1, h2, h3, h4, h5⟩ := foldl_applyOne s.wq { s with wq := [] }
+  exact ⟨h1, h2, h3, h4, fun id => (h5 id).1, fun id => (h5 id).2.1, fun id => (h5 id).2.2⟩
+
+theorem reach_applyQueue (s : St) : Reach s (applyQueue s) := .step (.applied (applied_applyQueue s))
+
+theorem reach_pollLoop (sc : Script) (s : St) (t0 : Bool) (count : Nat) (bs : List Batch) :
+    Reach s (pollLoop sc s t0 count bs) := by
+  induction bs generalizing s t0 count with
+  | nil =>
+    unfold pollLoop; split
+    · exact .refl _
+    · exact ((same_flushAll s).trans ((same_emit _ _).trans (same_emit _ _))).reach
+  | cons b rest ih =>
+    unfold pollLoop; split
+    · exact .refl _
+    · simp only []
+      split
+      · exact (same_flushAll s).reach
+      · have h1 : Reach s (emit (emit (flushAll s) (.block t0 (interestOf (flushAll s)))) (.batch b)) :=
+          ((same_flushAll s).trans ((same_emit _ _).trans (same_emit _ _))).reach
+        generalize emit (emit (flushAll s) (.block t0 (interestOf (flushAll s)))) (.batch b) = s0 at h1 ⊢
+        split
+        · exact h1
+        · have h2 : Reach s0 { s0 with batch := b, inv := true } := Same4.reach ⟨rfl, rfl, rfl, rfl⟩
+          have h3 := Reach.trans (Reach.trans h1 h2) (reach_dispatchFrom sc { s0 with batch := b, inv := true } 0 b.length)
+          generalize dispatchFrom sc { s0 with batch := b, inv := true } 0 b.length = r at h3 ⊢
+          have h4 : Reach s { r.1 with inv := false, batch := [] } :=
+            Reach.trans h3 (Same4.reach ⟨rfl, rfl, rfl, rfl⟩)
+          split
+          · exact h4
+          · split
+            · split
+              · exact Reach.trans h4 (ih _ _ _)
+              · exact h4
+            · split
+              · exact h4
+              · exact Reach.trans h4 (ih _ _ _)
+
+theorem reach_ioPoll (sc : Script) (s : St) (t0 : Bool) (bs : List Batch) : Reach s (ioPoll sc s t0 bs) := by
+  unfold ioPoll; simp only []
+  split
+  · exact reach_applyQueue s
+  · exact Reach.trans (Reach.trans (reach_applyQueue s) (reach_pollLoop _ _ _ _ _)) (same_flushAll _).reach
+
+theorem reach_runPend (sc : Script) (s : St) (n : Nat) : Reach s (runPend sc s n) := by
+  induction n generalizing s with
+  | zero => exact .refl _
+  | succ n ih =>
+    unfold runPend; split
+    · exact .refl _
+    · rename_i id rest _
+      exact Reach.trans (Reach.trans (Same4.reach (t := { s with pendingRun := rest }) ⟨rfl, rfl, rfl, rfl⟩)
+        (reach_deliver _ _ _ _)) (ih _)
+
+theorem reach_runPending (sc : Script) (s : St) : Reach s (runPending sc s) := by
+  unfold runPending
+  exact Reach.trans (Same4.reach (t := { s with pendingRun := s.pending, pending := [] }) ⟨rfl, rfl, rfl, rfl⟩)
+    (reach_runPend _ _ _)
+
+theorem reach_pend8 (sc : Script) (n : Nat) (s : St) : Reach s (pend8 sc n s) := by
+  induction n generalizing s with
+  | zero => exact .refl _
+  | succ n ih =>
+    unfold pend8; split
+    · exact .refl _
+    · exact Reach.trans (reach_runPending sc s) (ih _)
+
+theorem same_foldl_emit (l : List Nat) (s : St) : Same4 s (l.foldl (fun s id => emit s (.cbClose id)) s) := by
+  induction l generalizing s with
+  | nil => exact Same4.refl _
+  | cons a r ih => exact (same_emit s _).trans (ih _)
+
+theorem reach_runClosing (s : St) : Reach s (runClosing s) := by
+  unfold runClosing
+  have a : Same4 s { s with closingQ := [] } := ⟨rfl, rfl, rfl, rfl⟩
+  exact (a.trans (same_foldl_emit _ _)).reach
+
+theorem reach_run (sc : Script) (s : St) (bs : List Batch) : Reach s (run sc s bs) := by
+  unfold run; split
+  · exact .refl _
+  · simp only []
+    refine Reach.trans ?_ (same_emit _ _).reach
+    refine Reach.trans ?_ (reach_runClosing _)
+    refine Reach.trans ?_ (reach_pend8 _ _ _)
+    refine Reach.trans ?_ (reach_ioPoll _ _ _ _)
+    exact reach_runPending sc s
+
+end UvModel.IoWatch
+
+namespace UvModel.IoWatch
+
+/-! ### whole programs -/
+
+inductive Cmd
+  | op (o : Op)
+  | run (bs : List Batch)
+
+def execCmd (sc : Script) (s : St) : Cmd → St
+  | .op o => execOp s o
+  | .run bs => run sc s bs
+
+def exec (sc : Script) (s : St) (p : List Cmd) : St := p.foldl (execCmd sc) s
+
+/-- state after `uv_loop_init`: `nw` watcher slots, `internal` descriptors watched by libuv itself -/
+def init (ring : Bool) (internal nw : Nat) : St :=
+  { ring := ring, internal := internal, watchers := List.replicate nw none }
+
+theorem reach_exec (sc : Script) (s : St) (p : List Cmd) : Reach s (exec sc s p) := by
+  unfold exec
+  induction p generalizing s with
+  | nil => exact .refl _
+  | cons c r ih =>
+    refine Reach.trans ?_ (ih _)
+    cases c with
+    | op o => exact reach_execOp s o
+    | run bs => exact reach_run sc s bs
+
+theorem sinv_init (ring : Bool) (internal nw : Nat) : SInv (init ring internal nw) := by
+  refine ⟨by simp [init, List.countP_replicate], by simp [init], ?_, ?_, ?_, ?_⟩
+  · intro fd id h; simp [init, watcherAt, List.getD_eq_getElem?_getD, List.getElem?_replicate] at h
+    split at h <;> simp at h
+  · intro id; simp [init, getW]; exact ⟨rfl, rfl⟩
+  · intro fd id h; simp [init, watcherAt, List.getD_eq_getElem?_getD, List.getElem?_replicate] at h
+    split at h <;> simp at h
+  · intro fd id h; simp [init, watcherAt, List.getD_eq_getElem?_getD, List.getElem?_replicate] at h
+    split at h <;> simp at h
+
+/-- no watcher `id` is registered under any descriptor -/
+def Unreg (s : St) (id : Nat) : Prop := ∀ fd, watcherAt s fd ≠ some id
+
+/-- kernel masks are current: nothing queued, every registered watcher has `events = pevents` -/
+def Told (s : St) : Prop :=
+  s.wq = [] ∧ ∀ fd id, watcherAt s fd = some id → (getW s id).events = (getW s id).pevents
+
+end UvModel.IoWatch
+
